@@ -206,7 +206,9 @@ theorem C06_complete_worker {K : Keys} {H : List UInt64} {D : State → Prop} {B
 
 /-- **C06_complete_one_worker** (completeness half of C06 for one worker per iteration).
 Hypotheses: a legal root position (placement without overlaps) whose reachable tree satisfies the material bound of
-C05; a key table without harmful collision among the positions reachable from the root — `CollisionFree` (what
+C05 (`TreeBounded root`: REDUNDANT since the repair of defect F10, kept for the signature — `C06_complete_one_worker_all`
+in `Wee/Props/Clamped.lean` drops it, as do `C06_complete_some_report_any_workers_all`, `C17_win_all`,
+`C17_win_two_moves_all` for the theorems below); a key table without harmful collision among the positions reachable from the root — `CollisionFree` (what
 soundness needs) and `CollisionFreeN` (equal keys ⇒ equal mate distances); fresh memory of any geometry
 `nT, nB > 0`; an EMPTY game history; the side to move can force mate within `n` plies; depth limit `d ≥ n`; one worker
 per iteration; never cancelled; any generator state.  Then
